@@ -41,8 +41,8 @@ import (
 
 type benignVariant struct {
 	File, Kind string
-	Sites     int
-	Src       []byte
+	Sites      int
+	Src        []byte
 }
 
 func pureOperand(e ast.Expr) bool {
